@@ -147,6 +147,14 @@ def build_chain(seq, phis, psis, chis=None, omegas=None, hydrogens="none", oxt=T
     return out
 
 
+def hash_name(name, key):
+    """Small deterministic hash (independent of PYTHONHASHSEED) used for atom-order permutations."""
+    h = key * 2654435761 % 4294967296
+    for ch_ in name:
+        h = (h * 31 + ord(ch_)) % 4294967296
+    return h
+
+
 def pdb_name(name):
     return name[:4] if len(name) >= 4 else " " + name.ljust(3)
 
@@ -254,6 +262,16 @@ def materialise(desc) -> Structure:
                 seq, ch["phi"], ch["psi"], ch.get("chi"), ch.get("omega"),
                 hydrogens=ch.get("hyd", "none"), oxt=ch.get("oxt", True), acid=ch.get("acid"), hdrop=ch.get("hdrop"),
             )  # fmt: skip
+        # over-long peptide links (chain breaks without TER): everything after residue i is shifted
+        # along C(i)->N(i+1) so that this distance becomes d
+        for gi, gd in ch.get("stretch", []):
+            gi = gi % max(n - 1, 1)
+            if gi + 1 < n and "window" not in ch:
+                c_, n_ = res[gi]["atoms"]["C"], res[gi + 1]["atoms"]["N"]
+                u_ = (n_ - c_) / measure(n_, c_)
+                delta_ = u_ * (gd - measure(n_, c_))
+                for r_ in res[gi + 1 :]:
+                    r_["atoms"] = {k: v + delta_ for k, v in r_["atoms"].items()}
         R = quat_to_rot(ch.get("q", [1, 0, 0, 0]))
         allp = np.array([v for r in res for v in r["atoms"].values()])
         cen = allp.mean(0)
@@ -345,6 +363,10 @@ def materialise(desc) -> Structure:
             names = [k for k in first if k in r["atoms"]] + [
                 k for k in r["atoms"] if k not in first
             ]
+            if ch.get("shuffle"):
+                # PDB files may list the atoms of a residue in any order (deterministic permutation)
+                key = ch["shuffle"]
+                names = sorted(names, key=lambda k_: (hash_name(k_, key + i), k_))
             inv = {}
             if altmod:
                 base_ = BASE.get(r["name"], r["name"])
